@@ -2,7 +2,7 @@
    kind = property*100 + sub-model.  [run] = what the model says the implementation must
    output on this input; [mon] = the property's monitor applied to the implementation's own
    observed output. *)
-From RainV Require Import Lib Tier Geometry SectionIO Meta Paths Wire Stree AddrList Cache Tracker Announcer Picker PickerWs Edges WriteGate Ram InfoDl Magnet Admission PieceDl Leech MetaSess Life Registry Resume Priv Mse Owner ConnLimit.
+From RainV Require Import Lib Tier Geometry SectionIO Meta Paths Wire Stree AddrList Cache Tracker Announcer Picker PickerWs Edges Depth WriteGate Ram InfoDl Magnet Admission PieceDl Leech MetaSess Life Registry Resume Priv Mse Owner ConnLimit.
 
 Definition run (kind : Z) (inp : list Z) : list Z :=
   match kind with
@@ -15,15 +15,18 @@ Definition run (kind : Z) (inp : list Z) : list Z :=
   | 202 => run_calc_blocks inp
   | 203 => run_section_io inp
   | 204 => run_create_jobs inp
+  | 205 => run_create_verify inp
   | 301 => run_cached_read inp
   | 302 => run_cache inp
   | 303 => run_admission inp
   | 304 => run_cache_split inp
+  | 305 => run_cached_multi inp
   | 401 => run_life true inp
   | 501 => run_restart true inp
   | 502 => run_osync inp
   | 601 => run_accept inp
   | 602 => run_nesting inp
+  | 603 => run_depth inp
   | 701 => run_accept_paths inp
   | 702 => run_open_path inp
   | 703 => run_tar_target inp
@@ -82,15 +85,18 @@ Definition mon (kind : Z) (inp obs : list Z) : bool :=
   | 202 => mon_calc_blocks inp obs
   | 203 => mon_section_io inp obs
   | 204 => mon_create_jobs inp obs
+  | 205 => list_eqb_Z (run_create_verify inp) obs
   | 301 => mon_cached_read inp obs
   | 302 => mon_cache inp obs
   | 303 => mon_admission inp obs
   | 304 => list_eqb_Z (run_cache_split inp) obs
+  | 305 => list_eqb_Z (run_cached_multi inp) obs
   | 401 => mon_life inp obs
   | 501 => mon_restart inp obs
   | 502 => list_eqb_Z (run_osync inp) obs
   | 601 => mon_accept inp obs
   | 602 => list_eqb_Z (run_nesting inp) obs
+  | 603 => list_eqb_Z (run_depth inp) obs
   | 701 => mon_accept_paths inp obs
   | 702 => mon_open_path inp obs
   | 703 => mon_tar_target inp obs
